@@ -701,7 +701,7 @@ func (l *loopState) resolveExpressions(inputData any, dataModel any) (any, error
 	switch expr := inputData.(type) {
 	case expressions.Expression:
 		l.logger.Debugf("Evaluating expression %s...", expr.String())
-		return expr.Evaluate(dataModel, l.callableFunctions, l.workflowContext)
+		return l.evaluateExpression(expr, dataModel)
 	case *infer.OneOfExpression:
 		return l.resolveOneOfExpression(expr, dataModel)
 	case *infer.OptionalExpression:
@@ -818,7 +818,20 @@ func (l *loopState) resolveOptionalExpression(expr *infer.OptionalExpression, da
 	if !dependencyGroupResolved {
 		return nil, nil // It's nil to indicate that the optional field is not present.
 	}
-	return expr.Expr.Evaluate(dataModel, l.callableFunctions, l.workflowContext)
+	return l.evaluateExpression(expr.Expr, dataModel)
+}
+
+// evaluateExpression evaluates an expression against the data model. Arithmetic faults (for example an
+// integer division by zero) and function calls with values of an unexpected representation panic inside
+// the expression library; they are run-time evaluation failures of the workflow, not reasons to crash.
+func (l *loopState) evaluateExpression(expr expressions.Expression, dataModel any) (result any, err error) {
+	defer func() {
+		if r := recover(); r != nil {
+			result = nil
+			err = fmt.Errorf("failed to evaluate expression %s (%v)", expr.String(), r)
+		}
+	}()
+	return expr.Evaluate(dataModel, l.callableFunctions, l.workflowContext)
 }
 
 // stageChangeHandler is implementing step.StageChangeHandler.
